@@ -803,6 +803,11 @@ def run_c08(ctx):
                 if not ok and not c.meta.get("invalid"):
                     ctx.fail("indent_not_unit_multiple", c, "line indentation %r is not a whole number of units" % lead, observed=out.hex()[:2000])
                     break
+        if c.meta.get("closed_region_then_eof"):
+            ctx.count("eof_clause_checked")
+            nl = b"\r\n" if c.cfg[6] else b"\n"
+            if not out.endswith(b"{pasfmt on}" + nl):
+                ctx.fail("no_final_newline", c, "after the comment that closes the last verbatim region the output does not end with exactly one line terminator: ...%r" % out[-24:], observed=out.hex()[-400:])
         if c.meta.get("wellformed"):
             ctx.count("eof_clause_checked")
             nl = b"\r\n" if c.cfg[6] else b"\n"
@@ -843,6 +848,16 @@ def run_c08(ctx):
         r = double_region_in_statement(text, rng)
         if r is not None:
             cases.append(ctx.case("region2", r[0], gen.random_cfg(rng, wrap=rng.choice([wrap, 120, 1000000])), meta={"invalid": True}))
+    # a file that is verbatim from top to bottom but whose last region is CLOSED before the end: the end-of-file token is then an ordinary
+    # token and the end-of-file clause applies to what follows the closing comment (nothing, blanks, several line breaks)
+    for text, kind, wrap in wellformed_texts(ctx, ctx.n(40, 800)):
+        if gen.has_asm_or_toggle(text) or "'''" in text or gen.has_multiline_token(text):
+            continue
+        tail = rng.choice(["", "", "   ", "\n\n\n", " \n", "\t\n\n", "\n"])
+        body = text.rstrip(" \t\r\n")
+        mid = rng.choice(["", "", "{pasfmt on}\n{pasfmt off}", "// pasfmt on\n// pasfmt off\n"]) if "\n" in body else ""
+        k = body.find("\n", len(body) // 2) + 1 if mid else 0
+        cases.append(ctx.case("wholefile-region", "{pasfmt off}" + body[:k] + mid + body[k:] + rng.choice(["\n", "\n  "]) + "{pasfmt on}" + tail, gen.random_cfg(rng), meta={"closed_region_then_eof": True}))
     cases += witness_cases(ctx, "C08", wellformed=True)
     wf_cases = [c for c in cases if c.meta.get("wellformed")]
     other = [c for c in cases if not c.meta.get("wellformed")]
@@ -972,7 +987,7 @@ def run_c09(ctx):
             flip = tuple(r.case.cfg[:6]) + (1 - r.case.cfg[6],)
             sample.append(ctx.case("literal-formatted", t, flip))
             sample.append(ctx.case("literal-formatted", t.replace("\r\n", "\n") if "\r\n" in t else t.replace("\n", "\r\n"), r.case.cfg))
-    ctx.run_stream(sample, units=["recon", "settings", "mlstring", "mlvalue"])
+    ctx.run_stream(sample, units=["recon", "settings", "mlstring", "mlvalue", "e2e"])
     settings_grid(ctx)
     ctx.hypotheses["H-W2 (the wrapper's plan does not depend on the newline string)"] = "lf/crlf configuration pairs on the real formatter"
 
@@ -1039,7 +1054,7 @@ def run_c10(ctx):
     # the wrapper measures a line with the strings the reconstructor emits: its logged line length of every decided
     # token against the model of get_token_line_length and against the rendered column, under narrow widths too
     sample += [ctx.case("trace-narrow", t, gen.random_cfg(rng, wrap=rng.choice([30, 50, 80]))) for t, _, _ in pool[:: max(1, len(pool) // ctx.n(300, 3000))]]
-    ctx.run_stream(sample, units=["recon", "settings", "measure", "search"])
+    ctx.run_stream(sample, units=["recon", "settings", "measure", "search", "e2e"])
     ctx.hypotheses["the search reads the reconstruction settings only through the two indentation string lengths (signature of wrap_phase)"] = "unit search on every traced case: the model, which has no other access, reproduces every decision"
     ctx.hypotheses["the search's measured line length (LineWhitespace::len, get_token_line_length) is the model's"] = "unit measure on every traced case: hook log of last_line_length per decision"
     ctx.hypotheses["H-W3 (with the width unconstrained the plan does not depend on indentation widths)"] = "tabs/spaces pairs on the real formatter with wrap_column = 10^9"
@@ -1207,7 +1222,43 @@ def run_c12(ctx):
             cases.append(ctx.case("seed", s["text"], gen.random_cfg(rng, wrap=s["wrap"])))
             cases.append(ctx.case("seed", s["text"], gen.random_cfg(rng)))
     cases += witness_cases(ctx, "C12")
-    ctx.run_stream(cases, units=["mlstring", "mlvalue", "recon", "wrapapply"])
+
+    def oracle(r):
+        # the last clause read off the text the REAL formatter returned (tokenised by the approximate tokenizer, so only on inputs without
+        # lone CRs and unterminated quotes): a literal that obeys the indentation rule in the output has its closing quotes (and so its
+        # interior lines) indented exactly like the line its opening quotes are on
+        c = r.case
+        if c.cfg[2] != 1 or not isinstance(c.text, str) or gen.has_asm_or_toggle(c.text) or re.search(r"\r(?!\n)", c.text) or c.meta.get("stream") != "literal":
+            return
+        try:
+            out = r.out.decode("utf-8")
+        except UnicodeDecodeError:
+            return
+        if re.search(r"\r(?!\n)", out):
+            return
+        pos = 0
+        for k, t in gen.tokenize(out):
+            start, pos = pos, pos + len(t)
+            if k != "mls":
+                continue
+            ls = out.rfind("\n", 0, start) + 1
+            before = out[ls:start]
+            lead = before[:len(before) - len(before.lstrip(" \t"))]
+            if "'" in before:
+                continue          # another literal in front of this one on the same line
+            body = t.split("\n")
+            close_line = body[-1]
+            close_ind = close_line[:len(close_line) - len(close_line.lstrip(" \t"))]
+            if not close_line.lstrip(" \t").startswith("'''"):
+                continue
+            inner = [l.rstrip("\r") for l in body[1:-1]]
+            if any(l.strip(" \t") and not l.startswith(close_ind) for l in inner):
+                continue          # violates the indentation rule: reproduced byte for byte
+            ctx.count("literals_checked_on_text")
+            if close_ind != lead:
+                ctx.fail("mlstring_not_aligned_with_opening_line", c, "closing quotes indented by %r, the line of the opening quotes by %r" % (close_ind, lead), observed=r.out.hex()[:3000])
+                return
+    ctx.run_stream(cases, units=["mlstring", "mlvalue", "recon", "wrapapply", "e2e"], oracle=oracle)
     ctx.hypotheses["H-W5 (re-indentation uses the literal token's final indentation; reflow does not change it)"] = "unit mlstring uses the FINAL counters of the literal token on every case"
     ctx.hypotheses["plan_ok: a multi-line literal starts its line"] = "unit mlvalue compares interior lines with the literal's own indentation"
 
@@ -1293,7 +1344,15 @@ def run_c14(ctx):
     for text, kind, wrap in wellformed_texts(ctx, ctx.n(150, 3000))[:: ctx.n(2, 1)]:
         wf.append(ctx.case(kind + "-after-directives", rng.choice(DIR_PREFIXES) + text, gen.DEFAULT_CFG))
     wf += witness_cases(ctx, "C14")
-    ctx.run_stream(wf, units=["passes", "kernel", "grammar", "linescover", "parents", "eofline", "consolidators", "e2e"])
+    ctx.run_stream(wf, units=["passes", "kernel", "grammar", "linescover", "parents", "eofline", "consolidators", "prelines", "e2e"])
+    # "so no code is skipped by line-based formatting": the lines the formatters are handed are the parser's minus those voided because they
+    # lie wholly in ignored tokens - with regions that open and close inside one statement, every token that is not ignored must still be in a line
+    reg = []
+    for text, kind, wrap in wellformed_texts(ctx, ctx.n(100, 2000)):
+        for r in (insert_region(text, rng), double_region_in_statement(text, rng)):
+            if r is not None:
+                reg.append(ctx.case("region", r[0], gen.DEFAULT_CFG))
+    ctx.run_stream(reg, units=["ignore", "prelines", "linescover", "kernel", "grammar"])
     inv = []
     texts = [s["text"] for s in gen.seeds()]
     for _ in range(ctx.n(1500, 30000)):
@@ -1307,7 +1366,7 @@ def run_c14(ctx):
     # long chains and deep nestings of conditional blocks (dozens to a hundred passes): every branch's code is in a line
     for kind, d, t in directive_ladders(rng, ctx.n([9, 33, 70, 100], [5, 17, 33, 63, 64, 65, 70, 100, 130])):
         inv.append(ctx.case(kind, t, gen.DEFAULT_CFG, meta={"depth": d}))
-    ctx.run_stream(inv, units=["passes", "kernel", "grammar", "linescover", "consolidators"])
+    ctx.run_stream(inv, units=["passes", "kernel", "grammar", "linescover", "consolidators", "prelines"])
     ctx.hypotheses["side conditions of C14_final_lines_cover: each pass consumed to its end; skip_token only skips compiler directives"] = "unit kernel on every case (valid and invalid): replays the hook's event log through the kernel model, compares with the real pass lines and the real final lines, evaluates both side conditions"
     ctx.hypotheses["parent and Eof-line clauses (well-formed input): grammar facts"] = "extracted predicates parents_ok / eof_line_ok on the real parse result"
 
@@ -1376,7 +1435,7 @@ def run_c04(ctx):
         ctx.fail("abort", deep, r.failure[0] + " " + r.failure[1], site="stack-overflow", depth=200000)
     ctx.run_stream(cases, units=["passes", "cursor", "grammar"], panics_are_failures=True, per_case_timeout=1.0, case_limit_ms=15000, slow_ms=3000)
     # the termination theorems of the search are about the search model: tied on a sample of the same cases
-    ctx.run_stream([ctx.case(c.meta["stream"] + "-s", c.text, c.cfg) for c in cases[:: ctx.n(8, 3)] if len(c.input_bytes()) < 4000], units=["search"], per_case_timeout=1.0, case_limit_ms=15000)
+    ctx.run_stream([ctx.case(c.meta["stream"] + "-s", c.text, c.cfg) for c in cases[:: ctx.n(8, 3)] if len(c.input_bytes()) < 4000], units=["search", "e2e"], per_case_timeout=1.0, case_limit_ms=15000)
     ctx.oracle_counts["max_case_ms"] = getattr(ctx, "max_ms", 0)
     if not ctx.quick():
         # the plain release profile (no overflow checks): wrap-around instead of panic must not hang or crash either
@@ -1780,7 +1839,7 @@ def run_c06(ctx):
     run_pairs(ctx, pairs, compare)
     sample = [ctx.case("trace", t, gen.random_cfg(rng)) for t, _, _ in wellformed_texts(ctx, 20)[:: ctx.n(4, 1)]]
     # (the parser's and the search's layout independence are facts about the grammar model and the search model: both are tied here too)
-    ctx.run_stream(sample, units=["spacing", "fmtdata", "grammar", "search"])
+    ctx.run_stream(sample, units=["spacing", "fmtdata", "grammar", "search", "e2e"])
     ctx.hypotheses["the wrapper's search reads token types, spaces_before, content lengths, last-line lengths of multi-line tokens and the logical lines only (signature of wrap_phase; no original line breaks)"] = "unit search on the traced sample: the model reproduces every decision from these inputs alone"
     ctx.hypotheses["H-P2 / H-W2: parser and wrapper do not consult the original layout (except the documented reads)"] = "relayout metamorphic pairs on the real formatter; inventory of leading-whitespace reads proved equal to the modelled set"
 
@@ -1871,7 +1930,7 @@ def run_c03(ctx):
     sample = [ctx.case("trace", c.text, c.cfg) for c in second[:: max(1, len(second) // 300)]]
     # first-pass inputs too (un-normalised comments, keyword case): the rewriters against their models
     sample += [ctx.case("trace1", c.text, c.cfg) for c in first[:: max(1, len(first) // ctx.n(600, 4000))]]
-    ctx.run_stream(sample, units=["spacing", "lower", "comment", "eofnl", "mlstring", "fmtdata", "search"])
+    ctx.run_stream(sample, units=["spacing", "lower", "comment", "eofnl", "mlstring", "fmtdata", "search", "e2e"])
     ctx.hypotheses["the plan is a function of the layout-free view except spaces_before of continuing tokens (search_first_token_spaces_irrelevant) and the child_line_cache kept across the reflow (F6, modelled)"] = "unit search on first- and second-pass inputs"
     ctx.hypotheses["H-W2/H-W4/H-W5: the wrapper's plan is a function of the layout-free view; reflow = fresh call"] = "fmt(fmt(x)) = fmt(x) on the real formatter"
 
@@ -1953,6 +2012,25 @@ def run_c05(ctx):
     for text, tag in placement_sample(ctx):
         cases.append(ctx.case("placement", text, gen.random_cfg(rng), meta={"tag": tag, "marks": [(nonblank_index(text, off), d, k) for off, d, k in gen.placement_marks(text)]}))
 
+    # a statement whose head and tail are hand-aligned (verbatim regions) while the block in between is ordinary code: the statements of
+    # that block are still one per line at their depth (the block's lines are child lines of a line that starts and ends ignored)
+    g5 = gen.GrammarGen(rng)
+    for _ in range(ctx.n(150, 3000)):
+        stmts = [g5.ident() + rng.choice(["", "(1)", "(A, B)", " := " + g5.ident()]) for _ in range(rng.randrange(1, 5))]
+        gaps = [rng.choice(["\n    ", "   ", "\n      ", " "]) for _ in stmts]
+        head = "  // pasfmt off\n  if  (Mode = mA)  or\n      (Mode = mB) {pasfmt on} then begin"
+        body = "".join(g_ + st + ";" for g_, st in zip(["\n    "] + gaps[1:], stmts))
+        tail = "\n  end\n  else // pasfmt off\n    Count  :=  Count  +  1;\n  // pasfmt on\n  Done;\nend;\n"
+        text = "procedure Apply(Mode: TMode);\nbegin\n" + head + body + tail
+        marks, off = [], len("procedure Apply(Mode: TMode);\nbegin\n" + head)
+        for g_, st in zip(["\n    "] + gaps[1:], stmts):
+            marks.append((off + len(g_), 2, "stmt"))
+            off += len(g_) + len(st) + 1
+        marks.append((text.index("\n  end\n") + 3, 1, "closer"))
+        marks.append((text.index("  Done;") + 2, 1, "stmt"))
+        cfg = gen.random_cfg(rng, wrap=120)
+        cases.append(ctx.case("region-branch", text, cfg[:1] + (0,) + cfg[2:], meta={"marks": [(nonblank_index(text, o), d, k) for o, d, k in marks]}))
+
     # the witnesses of the listed C05 findings carry their own marks: [substring whose first character is marked, depth, kind]
     from . import findings as _f5
     for fid, text, cfg, cursors, w in _f5.witness_inputs("C05"):
@@ -1990,7 +2068,7 @@ def run_c05(ctx):
                 ctx.fail("statement_wrong_indentation", c, "%s at depth %d is indented by %r, expected %d units of %r: %r" % (kind, depth, lead, depth, unit, out[ls:pos + 15]), observed=r.out.hex()[:3000])
                 return
 
-    ctx.run_stream(cases, units=["levels", "grammar", "linescover", "eofline", "canon"], oracle=oracle)
+    ctx.run_stream(cases, units=["levels", "grammar", "linescover", "eofline", "canon", "e2e"], oracle=oracle)
     ctx.hypotheses["grammar assigns level d+1 inside a block opened at level d; one logical line per statement"] = "generator-marked statement heads checked against line starts and indentation of the real output"
     ctx.hypotheses["H-W1: first token of a top-level line breaks at `level` indentations"] = "unit levels on every trace"
 
@@ -2175,7 +2253,7 @@ def run_c11(ctx):
     # the limit is applied to a MEASURED length: the search's logged line length of every decided token against the
     # model of get_token_line_length and against the rendered column (theorem C11_measured_fit_is_rendered_fit)
     msample = [ctx.case("trace-" + c.meta["stream"], c.text, c.cfg) for c in cases[:: max(1, len(cases) // ctx.n(500, 5000))]]
-    ctx.run_stream(msample, units=["measure", "recon", "wrapapply", "search"])
+    ctx.run_stream(msample, units=["measure", "recon", "wrapapply", "search", "e2e"])
     ctx.hypotheses["the penalties, the over-length test and the iteration limit of the search are the model's (Model/WrapSearch.v)"] = "unit search on the traced sample: WS lines (penalty, iterations, length) compared per find_optimal_solution call"
     ctx.hypotheses["the search's measured line length (LineWhitespace::len, get_token_line_length) is the model's"] = "unit measure on a traced sample of the width-pair cases"
 
